@@ -1,0 +1,12 @@
+//go:build verif
+
+package route
+
+import "net/http"
+
+// VerifC30Handlers exposes the unexported /alive and /ready handlers of a Router that has
+// Health, Metrics and Logger set (verification harness only; compiled only with -tags verif).
+func VerifC30Handlers(r *Router) (alive, ready http.HandlerFunc) {
+	r.iopLogger = iopLogger{Logger: r.Logger, incomingOrPeer: "incoming"}
+	return r.alive, r.ready
+}
